@@ -300,6 +300,10 @@ impl Scanner {
             if self.ch == '"' || self.ch == '\0' {
                 break;
             }
+            // a string literal may span lines
+            if self.ch == '\n' {
+                self.line += 1;
+            }
         }
         let the_str: String = self.input[position..self.position].iter().collect();
         if self.ch == '"' {
@@ -376,8 +380,12 @@ impl Scanner {
                 ' ' | '\t' => {
                     self.read_char();
                 }
-                '\n' | '\r' => {
+                '\n' => {
                     self.line += 1;
+                    self.read_char();
+                }
+                // a carriage return is white space, the line ends at the '\n'
+                '\r' => {
                     self.read_char();
                 }
                 _ => {
